@@ -149,3 +149,12 @@ def test_shape_ops_on_python_scalars_are_outside_the_fragment():
     assert not L.well_typed(("u", "reshape", (1,), ("num", 2.5)))
     assert not L.well_typed(("u", "reshape", (1,), ("u", "neg", None, ("num", 2.5))))
     assert L.well_typed(("u", "reshape", (1,), A)) and L.ty(("u", "reshape", (1,), A)) == ("real", (1,))
+
+
+def test_keyword_orders():
+    from fv.props import c18
+
+    assert c18.keyword_orders([]) == [[]]
+    assert c18.keyword_orders(["x", "y"]) == [["x", "y"], ["y", "x"]]
+    assert len(c18.keyword_orders(["x", "y", "z"])) == 6 and c18.keyword_orders(["x", "y", "z"])[0] == ["x", "y", "z"]
+    assert c18.keyword_orders(list("wxyz")) == [list("wxyz"), list("zyxw"), list("xyzw")]
